@@ -41,8 +41,12 @@ SentDiffers(h) == h \in {"upper", "spaced", "apexup", "apexspaced", "acmespaced"
 Proofs  == {"valid", "validsent", "missing", "wrongsubject", "tampered", "expired", "easy"}
 Cnames  == {"own", "other", "junk", "none"}
 Bounds  == {"none", "same", "other"}
+(* fault: what the DHT does to the handler's read of the hostname's binding record: none | retry (a retryable error on every
+   attempt: the key's owner is in a membership change) | fatal (another error) *)
 ValidateCases == {x \in [caller : Clients, method : {"validate", "instruction"}, host : HostClasses,
-                         cname : Cnames, bound : Bounds, proof : Proofs] : x.proof = "validsent" => SentDiffers(x.host)}
+                         cname : Cnames, bound : Bounds, proof : Proofs, fault : {"none"}] : x.proof = "validsent" => SentDiffers(x.host)}
+                 \cup [caller : Clients, method : {"validate", "instruction"}, host : {"valid", "spaced"}, cname : {"own", "other", "none"},
+                       bound : Bounds, proof : {"valid"}, fault : {"retry", "fatal"}]
 
 Holder(caller, b) == CASE b = "none" -> "none" [] b = "same" -> caller [] b = "other" -> Other(caller)
 
@@ -53,6 +57,7 @@ CheckAcme(x, pre) ==      \* "err" | "found" | "notfound"
   IF x.proof # "valid" THEN "err"                       \* the proof is verified against the normalized name: "validsent" fails too
   ELSE IF x.host \in {"apex", "acme", "apexspaced", "acmespaced"} THEN "err"        \* strings.Contains(normalized hostname, acme / apex)
   ELSE IF x.host = "bare" THEN "err"                    \* fewer than two dots
+  ELSE IF x.fault # "none" THEN "err"                   \* tun.FindCustomHostname fails: the request fails with it
   ELSE IF pre = "none" THEN "notfound"
   ELSE IF pre = x.caller THEN "found" ELSE "err"
 StepImpl(x, pre) ==
@@ -90,7 +95,7 @@ StepExpected(x, pre) ==
 (* C29, histories on one valid hostname with valid proofs: the DNS answer is set before each validation *)
 HistStep == [caller : Clients, cname : {"A", "B", "none"}]
 HistCases == UNION {[1..k -> HistStep] : k \in 1..MaxHist}
-AsCall(s) == [caller |-> s.caller, method |-> "validate", host |-> "valid", proof |-> "valid", bound |-> "none",
+AsCall(s) == [caller |-> s.caller, method |-> "validate", host |-> "valid", proof |-> "valid", bound |-> "none", fault |-> "none",
               cname |-> IF s.cname = s.caller THEN "own" ELSE IF s.cname = "none" THEN "none" ELSE "other"]
 RECURSIVE HistRun(_, _, _)
 HistRun(h, k, pre) ==      \* sequence of [pre, ok, post] the transcription goes through
